@@ -463,3 +463,51 @@ fn c08_release_two() {
     std::mem::forget(rig.pool);
 }
 
+
+//@ prop: C08 C02
+//@ tier: quick
+//@ what: the buffer the kernel chose is decoded from the completion flags: multishot read/recv map_next and single-shot read/recv map_ok turn (flags, n) into an owned slice [base + id*size, +n) of exactly the selected buffer iff IORING_CQE_F_BUFFER is set (id = flags >> 16); without the flag an empty, unassigned buffer results and nothing is owned
+//@ bound: pool 2x4; id in 0..2, n in 0..=4, other flag bits symbolic
+//@ encodes: <io_uring::io::MultishotReadOp as FdIter>::map_next; <io_uring::net::MultishotRecvOp as FdIter>::map_next; <io_uring::io::ReadOp as FdOp>::map_ok; io_uring::op::CompletionFlags::buf_id; io::ReadBufPool::new_buffer
+//@ stubs: crate::lock -> try_lock model; <core::io::CustomOwner as Drop>::drop -> no-op
+#[kani::proof]
+#[kani::unwind(3)]
+#[kani::stub(crate::lock, crate::verif_stubs::lock_model)]
+#[kani::stub(<core::io::CustomOwner as core::ops::Drop>::drop, crate::verif_stubs::custom_owner_drop_noop)]
+fn c08_buffer_id_decode() {
+    use crate::io_uring::op::{FdIter, FdOp, verif_opsup as ops};
+    use std::mem::ManuallyDrop;
+    let rig = rig_with(POOL as u16, 0);
+    let sq = SubmissionQueue(crate::io_uring::sq::verif_c04::submissions_in_place(2, false, false));
+    let fd = ManuallyDrop::new(unsafe { crate::AsyncFd::from_raw(5, crate::fd::Kind::File, sq.clone()) });
+    let id: u16 = kani::any();
+    kani::assume((id as usize) < POOL);
+    let n: u32 = kani::any();
+    kani::assume(n as usize <= CAP);
+    let has_buffer: bool = kani::any();
+    let other: u32 = kani::any();
+    let flags = (other & 0xfffe & !libc::IORING_CQE_F_BUFFER) | if has_buffer { libc::IORING_CQE_F_BUFFER | (u32::from(id) << 16) } else { 0 };
+    kani::assume(has_buffer || n == 0); // without a buffer the kernel transferred nothing
+    let ret = (ops::completion_flags(flags), n);
+    let pool = crate::io::ReadBufPool { shared: rig.pool.clone() };
+    let which: u8 = kani::any();
+    kani::assume(which < 3);
+    let rb = match which {
+        0 => <super::MultishotReadOp as FdIter>::map_next(&fd, &pool, ret),
+        1 => <crate::io_uring::net::MultishotRecvOp as FdIter>::map_next(&fd, &pool, ret),
+        _ => <super::ReadOp<ReadBuf> as FdOp>::map_ok(&fd, pool.get(), ret),
+    };
+    if has_buffer {
+        assert!(rb.owned.is_some(), "owns the selected buffer");
+        assert!(rb.as_ptr() == rig.base(id).cast_const() && rb.len() == n as usize, "exactly the selected slot, n bytes");
+    } else {
+        assert!(rb.owned.is_none() && rb.len() == 0, "no buffer selected: nothing owned");
+    }
+    kani::cover!(has_buffer && id == 1 && n == 4);
+    kani::cover!(!has_buffer);
+    kani::cover!(which == 2 && has_buffer);
+    std::mem::forget(rb);
+    std::mem::forget(pool);
+    std::mem::forget(sq);
+    std::mem::forget(rig.pool);
+}
